@@ -124,6 +124,17 @@ func evalC18(in []byte, srcOffs, tgtOffs, span int) (vs []*Violation, accepted b
 	if u.PortNo != u0.PortNo || u.URIType != u0.URIType {
 		add("AdjustOffs", "non-positional-values-unchanged", "scalar", "")
 	}
+	// the derived views of the relocated URI denote the same text as before, at the new position
+	l2, s2 := u.Long(), u.Short()
+	if int(l2.Offs) != tgtOffs || l2.Len != long.Len || int(s2.Offs) != tgtOffs || s2.Len != short.Len {
+		cl := "sip"
+		if u0.URIType == sipsp.TELuri {
+			cl = "tel"
+		}
+		add("Short/Long", "views-of-relocated-uri", cl, fmt.Sprintf("at %d: Long=%v Short=%v, at 0: Long=%v Short=%v", tgtOffs, l2, s2, long, short))
+	} else if !bytes.Equal(u.Flat(tb), u0.Flat(in)) {
+		add("Flat", "views-of-relocated-uri", "flat", "")
+	}
 	return
 }
 
